@@ -312,6 +312,8 @@ func (s *KevoServiceServer) TxGet(ctx context.Context, req *pb.TxGetRequest) (*p
 
 	if len(req.Key) == 0 || len(req.Key) > s.maxKeySize {
 		// For invalid inputs, consider automatically releasing the transaction
+		// Roll back first so that the transaction's lock is released as well
+		_ = tx.Rollback()
 		s.txRegistry.Remove(req.TransactionId)
 		return nil, fmt.Errorf("invalid key size")
 	}
